@@ -44,7 +44,7 @@ def enumerate_specs(tier):
     """deterministic boundary family: every special row kind (CPM == 0, CPM == 1, ge1 band, just outside the band,
     just above 1) x every dtype x worker counts x chunk sizes, on a small scrambled two-level tree"""
     tree = {'hierarchy': ['class', 'cluster'],
-            'class': {'k_b': ['c_z', 'c_a'], 'k_a': ['c_m']},
+            'class': {'k_b': ['c_z', 'c_m'], 'k_a': ['c_a']},
             'cluster': {'c_z': [], 'c_m': [], 'c_a': []}}
     out = []
     procs, rats = ((1, 3), (1, 3)) if tier == 'quick' else ((1, 2, 3, 4), (1, 2, 3, 5, 12))
